@@ -5,6 +5,18 @@ use triomphe::{Arc, HeaderSlice, HeaderWithLength, ThinArc, UniqueArc};
 use vrt::arena::{self, cap};
 use vrt::{catch, track};
 
+thread_local! {
+    /// run the constructor and the release while the thread is unwinding from an unrelated panic
+    static UNWINDING: std::cell::Cell<bool> = const { std::cell::Cell::new(false) };
+}
+fn ctx<R>(f: impl FnOnce() -> R) -> R {
+    if UNWINDING.with(|u| u.get()) {
+        vrt::during_unwind(f)
+    } else {
+        f()
+    }
+}
+
 pub struct View<'a, H, E> {
     pub header: Option<&'a H>,
     pub elems: &'a [E],
@@ -27,7 +39,7 @@ pub fn eval<H: Hdr, E: Elem, B>(g: &mut Grid, case: &str, class: String, n: usiz
         (h, v, hid, ids)
     });
     let d0 = track::n_drops();
-    let b = match catch(|| cap(|| construct(h, v))) {
+    let b = match catch(|| cap(|| ctx(|| construct(h, v)))) {
         Ok(b) => b,
         Err(m) => {
             if zst && m.contains("ZST") {
@@ -73,7 +85,7 @@ pub fn eval<H: Hdr, E: Elem, B>(g: &mut Grid, case: &str, class: String, n: usiz
     if live != want_live {
         g.fail("source-storage", case, format!("{} live blocks after construction, expected {} (the allocation{}): the source container's storage was not released or something leaked", live, want_live, if E::INNER_BLOCKS > 0 { " + one box per element" } else { "" }));
     }
-    if let Err(m) = catch(|| cap(|| drop(b))) {
+    if let Err(m) = catch(|| cap(|| ctx(|| drop(b)))) {
         g.fail("release-panic", case, m);
     }
     let mut got = track::drops_since(d0);
@@ -102,9 +114,9 @@ fn script<E>(v: Vec<E>, r: Regime) -> Script<E> {
     arena::suspend(|| Script::new(v, r))
 }
 
-pub fn family<H: Hdr, E: Elem>(g: &mut Grid, maxlen: usize) {
+pub fn family<H: Hdr, E: Elem>(g: &mut Grid, lens: &[usize]) {
     type Fat<H, E> = Arc<HeaderSlice<H, [E]>>;
-    for n in 0..=maxlen {
+    for &n in lens {
         let nm = |c: &str| (format!("{} header={} elem={} len={}", c, H::NAME, E::NAME, n), format!("{}|{}|{}|{}", c, H::NAME, E::NAME, n.min(4)));
         let (case, class) = nm("from_header_and_iter");
         eval::<H, E, Fat<H, E>>(g, &case, class, n, 0, |h, v| Arc::from_header_and_iter(h, script(v, Regime::Exact)), |b| View { header: Some(&b.header), elems: &b.slice, thin_len: None });
@@ -119,8 +131,8 @@ pub fn family<H: Hdr, E: Elem>(g: &mut Grid, maxlen: usize) {
     }
 }
 
-pub fn plain<E: Elem>(g: &mut Grid, maxlen: usize) {
-    for n in 0..=maxlen {
+pub fn plain<E: Elem>(g: &mut Grid, lens: &[usize]) {
+    for &n in lens {
         let nm = |c: &str| (format!("{} elem={} len={}", c, E::NAME, n), format!("{}|{}|{}", c, E::NAME, n.min(4)));
         for slack in [0usize, 1, 5] {
             let (case, class) = nm(&format!("Arc<[T]>::from(Vec cap+{})", slack));
@@ -137,7 +149,11 @@ pub fn plain<E: Elem>(g: &mut Grid, maxlen: usize) {
         let (case, class) = nm("unerase(Arc<[T]>::from(Vec))");
         eval::<(), E, Arc<HeaderSlice<(), [E]>>>(g, &case, class, n, 0, |_, v| Arc::<HeaderSlice<(), [E]>>::from(Arc::<[E]>::from(v)), |b| View { header: Some(&b.header), elems: &b.slice, thin_len: None });
     }
-    // sized constructors: the "slice" is the one value
+    sized::<E>(g);
+}
+
+/// sized constructors: the "slice" is the one value
+pub fn sized<E: Elem>(g: &mut Grid) {
     fn one<E>(b: &E) -> &[E] {
         std::slice::from_ref(b)
     }
@@ -196,7 +212,7 @@ impl CopyEl for C16 {
 fn copy_case<B>(g: &mut Grid, case: String, class: String, expect_live: usize, construct: impl FnOnce() -> B, check: impl Fn(&B) -> Option<String>) {
     vrt::begin_execution();
     g.begin(&case);
-    let b = match catch(|| cap(construct)) {
+    let b = match catch(|| cap(|| ctx(construct))) {
         Ok(b) => b,
         Err(m) => {
             g.case(class, || case.clone());
@@ -211,7 +227,7 @@ fn copy_case<B>(g: &mut Grid, case: String, class: String, expect_live: usize, c
     if arena::live_blocks().len() != expect_live {
         g.fail("source-storage", &case, format!("{} live blocks after construction, expected {}", arena::live_blocks().len(), expect_live));
     }
-    cap(|| drop(b));
+    cap(|| ctx(|| drop(b)));
     if !arena::live_blocks().is_empty() {
         g.fail("leak", &case, format!("blocks still allocated after release: {:?}", arena::live_blocks()));
     }
@@ -220,8 +236,8 @@ fn copy_case<B>(g: &mut Grid, case: String, class: String, expect_live: usize, c
     }
 }
 
-pub fn copies<H: Hdr, T: CopyEl>(g: &mut Grid, maxlen: usize) {
-    for n in 0..=maxlen {
+pub fn copies<H: Hdr, T: CopyEl>(g: &mut Grid, lens: &[usize]) {
+    for &n in lens {
         let src: Vec<T> = (0..n).map(T::mk).collect();
         let keep = src.clone();
         let cmp = |got: &[T]| if got == &keep[..] { None } else { Some(format!("given {:?}, handle holds {:?}", keep, got)) };
@@ -272,6 +288,19 @@ pub fn strings(g: &mut Grid, maxlen: usize) {
     }
 }
 
+pub fn long_strings(g: &mut Grid, lens: &[usize]) {
+    for &n in lens {
+        let s: String = (0..n).map(|i| ['a', 'é', '漢', '\u{1F600}'][i % 4]).collect();
+        let tag = |c: &str| (format!("{} of {} chars", c, n), format!("{}|long", c));
+        let (case, class) = tag("from_header_and_str(u8)");
+        copy_case(g, case, class, 1, || Arc::from_header_and_str(<u8 as Hdr>::make(), &s), |b| if &b.slice == s.as_str() && b.header == 0x7e { None } else { Some("contents differ".to_string()) });
+        let (case, class) = tag("Arc<str>::from(&str)");
+        copy_case(g, case, class, 1, || Arc::<str>::from(s.as_str()), |b| if &**b == s.as_str() { None } else { Some("contents differ".to_string()) });
+        let (case, class) = tag("Arc<str>::from(String)");
+        copy_case(g, case, class, 1, || Arc::<str>::from(String::from(s.as_str())), |b| if &**b == s.as_str() { None } else { Some("contents differ".to_string()) });
+    }
+}
+
 pub fn defaults(g: &mut Grid) {
     let (case, class) = ("Arc::<Tracked>::default()".to_string(), "default|tracked".to_string());
     vrt::begin_execution();
@@ -294,9 +323,36 @@ pub fn defaults(g: &mut Grid) {
     }
 }
 
+/// Every constructor (non-zero-sized elements: a refusal would be a second panic) for lengths 0..=3,
+/// built and released while the thread is unwinding from an unrelated panic: the contents, the
+/// accounting and the allocator's view must be what they are in a quiet thread.
+pub fn unwinding_grid() -> Grid {
+    let mut g = Grid::new("c06.unwinding", "every constructor x length 0..=3 x element class x header class, constructed AND released inside a destructor that runs during the unwind of an unrelated panic (std::thread::panicking() is true): same contents, same accounting");
+    UNWINDING.with(|u| u.set(true));
+    let lens = [0usize, 1, 2, 3];
+    family::<(), ET>(&mut g, &lens);
+    family::<HT, ET>(&mut g, &lens);
+    family::<H32, EB>(&mut g, &lens);
+    family::<u8, E2>(&mut g, &lens);
+    family::<(), E16>(&mut g, &lens);
+    plain::<ET>(&mut g, &lens);
+    plain::<EB>(&mut g, &lens);
+    plain::<E2>(&mut g, &lens);
+    sized::<EBig<4096>>(&mut g);
+    copies::<(), u8>(&mut g, &lens);
+    copies::<HT, u16>(&mut g, &lens);
+    copies::<H32, u64>(&mut g, &lens);
+    UNWINDING.with(|u| u.set(false));
+    g
+}
+
 pub fn run(tier: &str) -> Vec<Grid> {
     let n = if tier == "thorough" { 33 } else { 9 };
-    let mut g = Grid::new("c06.owned", "constructor x length 0..=N x Vec capacity slack x size_hint regime x element class x header class, owned (moved) inputs with identity-tracked elements; distinct = (constructor, header class, element class, min(len,4))");
+    let small: Vec<usize> = (0..=n).collect();
+    let n = &small[..];
+    // far beyond every small length: 2^k - 1, 2^k, 2^k + 1 (a length- or size-dependent path would start somewhere like this)
+    let big: Vec<usize> = if tier == "thorough" { vec![63, 64, 65, 127, 128, 129, 255, 256, 257, 511, 512, 513, 1023, 1024, 1025, 2047, 2048, 2049, 4095, 4096, 4097] } else { vec![63, 64, 65, 127, 128, 129, 255, 256, 257, 1023, 1024, 1025] };
+    let mut g = Grid::new("c06.owned", "constructor x length (0..=N, then 2^k-1, 2^k, 2^k+1 up to 1025 / 4097 for two element and two header classes) x Vec capacity slack x size_hint regime x element class x header class, owned (moved) inputs with identity-tracked elements; distinct = (constructor, header class, element class, min(len,4))");
     macro_rules! fam {
         ($h:ty) => {
             family::<$h, ET>(&mut g, n);
@@ -318,6 +374,16 @@ pub fn run(tier: &str) -> Vec<Grid> {
     plain::<E2>(&mut g, n);
     plain::<E16>(&mut g, n);
     plain::<EZ>(&mut g, n);
+    family::<(), ET>(&mut g, &big);
+    family::<H32, ET>(&mut g, &big);
+    family::<(), E2>(&mut g, &big);
+    family::<H32, E2>(&mut g, &big);
+    plain::<ET>(&mut g, &big);
+    plain::<E2>(&mut g, &big);
+    // sized values of 4 KiB, 64 KiB and 256 KiB with a tracked destructor
+    sized::<EBig<4096>>(&mut g);
+    sized::<EBig<65536>>(&mut g);
+    sized::<EBig<262144>>(&mut g);
     defaults(&mut g);
     let mut c = Grid::new("c06.copied", "copying constructors (from_header_and_slice, ThinArc::from_header_and_slice, From<&[T]>, from_header_and_str, From<&str>, From<String>) x length x element/header class; strings: every string of <=3 chars over {a, é, 漢, emoji} plus longer ones");
     macro_rules! cop {
@@ -334,6 +400,14 @@ pub fn run(tier: &str) -> Vec<Grid> {
     cop!((u32, u8));
     cop!(HT);
     cop!(H32);
-    strings(&mut c, n);
-    vec![g, c]
+    let bigc: Vec<usize> = big.iter().copied().chain(if tier == "thorough" { vec![8191, 8192, 8193, 32767, 32768, 32769] } else { vec![] }).collect();
+    copies::<(), u8>(&mut c, &bigc);
+    copies::<(), u16>(&mut c, &bigc);
+    copies::<H32, u16>(&mut c, &bigc);
+    copies::<(), u64>(&mut c, &bigc);
+    copies::<H32, [u8; 3]>(&mut c, &bigc);
+    copies::<(), C16>(&mut c, &bigc);
+    strings(&mut c, n.len() - 1);
+    long_strings(&mut c, &bigc);
+    vec![g, c, unwinding_grid()]
 }
